@@ -15,7 +15,7 @@ for d in sorted(glob.glob(f'/verif/seeded/{pat}/')):
         continue
     jobs.append((name, d + 'patch.diff', d + 'demo_test.go.txt', meta['breaks_property']))
 def run(j):
-    p = subprocess.run(['/verif/selftest/eval_mutant.sh', *j, 'quick'], capture_output=True, text=True)
+    p = subprocess.run(['/verif/selftest/eval_mutant.sh', *j, 'quick'], capture_output=True, text=True, env=dict(os.environ, SKIP_CONFIRM='1'))
     l = [x for x in p.stdout.splitlines() if x.startswith('RESULT')]
     return l[-1] if l else f'RESULT {j[0]} ?'
 n = c = 0
